@@ -225,10 +225,21 @@ def run_join(case, ctx):
                 ok = va == vb if exact else all(abs(float(s) - float(t)) <= 1e-9 * sc for s, t in zip(va, vb))
                 if not ok and bad is None:
                     bad = (where, x, va, vb)
-    ctx.check(bad is None, f"join:function:{feat}", f"(A | B) differs from {bad[0] if bad else ''} at u={bad[1] if bad else ''}: {lib.short(bad[2:] if bad else '')}")
+    if bad is not None and not rational:
+        # tier 2, as for the joins of split pieces: the junction knot is cleaned with the library's 1e-9 tolerance, so a
+        # copy that is needed only by less than that may go. Judged against the exact piecewise curve (both parts raised to
+        # the common degree, junction knot of full multiplicity) with the deviation bound of clean()
+        ctx.count("join_tier2")
+        q = max(ra.p, rb.p)
+        ea, eb = ref.elevate(ra, q - ra.p) if q > ra.p else ra, ref.elevate(rb, q - rb.p) if q > rb.p else rb
+        whole = ref.RC(ea.U[: -(q + 1)] + [rb.U[0]] * (q + 1) + eb.U[q + 1:], list(ea.P) + list(eb.P), None)
+        deviation_ok(ctx, whole, J, F(1, 10**9), exact, f"join:function:{feat}", f"(A | B) differs from {bad[0]} at u={bad[1]}: {lib.short(bad[2:])}")
+    else:
+        ctx.check(bad is None, f"join:function:{feat}", f"(A | B) differs from {bad[0] if bad else ''} at u={bad[1] if bad else ''}: {lib.short(bad[2:] if bad else '')}")
     # the junction value belongs to B, the end value to B
     va, vb = J(rb.U[0]), rb(rb.U[0])
-    ctx.check(va == vb if exact else lib.pts_close([float(x) for x in va], vb, 1e-9), f"join:junction-value:{feat}", "(A | B)(junction) != B(junction)")
+    strict = exact and not (bad is not None and not rational)  # after a tolerant junction cleaning the value is within the tolerance, not exact
+    ctx.check(va == vb if strict else lib.pts_close([float(x) for x in va], vb, 1e-9 if not exact else 1e-6), f"join:junction-value:{feat}", "(A | B)(junction) != B(junction)")
 
 
 def run_case(case, ctx):
